@@ -582,3 +582,33 @@ def canonname(repo):
         raise AnalysisError("no object_path comparison with a definition name found (the Flag special case moved?)")
     res.analysed = ["compiler/**/*.py"]
     return res
+
+
+def refhead(repo):
+    """R-REFHEAD (C16/C12): the first name of a field reference is looked up like any other name, and the symbol table
+    also holds import aliases (snake_case like fields).  An alias resolves to a *module* -- canonical name with an empty
+    object_path -- which no later pass can handle (dependency graph KeyError, `.read_transform` on a Module).  So the
+    function that resolves the head of a field reference must test the target's `object_path` and leave with an error
+    before it stores the canonical name; delegating to the generic _resolve_reference stores it unconditionally."""
+    res = RuleResult("R-REFHEAD")
+    m = repo.mod("compiler/front_end/symbol_resolver.py")
+    fs = [f for f in m.top_funcs() if f.name == "_resolve_head_of_field_reference"]
+    if not fs:
+        raise AnalysisError("symbol_resolver._resolve_head_of_field_reference not found")
+    f = fs[0]
+    res.instances = 1
+    stores = [n for n in walk_no_nested_funcs(f.node) if isinstance(n, ast.Call) and isinstance(n.func, ast.Attribute)
+              and n.func.attr == "CopyFrom" and "canonical_name" in ast.unparse(n)]
+    delegates = [n for n in walk_no_nested_funcs(f.node) if isinstance(n, ast.Call) and (call_name(n) or "") == "_resolve_reference"]
+    guard = None
+    for n in walk_no_nested_funcs(f.node):
+        if isinstance(n, ast.If) and "object_path" in ast.unparse(n.test) and n.body and isinstance(n.body[-1], ast.Return) \
+                and "errors.append" in ast.unparse(n):
+            guard = n
+    ok = bool(stores) and guard is not None and all(guard.lineno < s_.lineno for s_ in stores) and not delegates
+    if not ok:
+        res.add(f"{m.rel}|_resolve_head_of_field_reference|module-head", "the head of a field reference is given the canonical name of "
+                "whatever the lookup finds, including the module an import alias stands for (empty object_path): `import \"n.emb\" as "
+                "n` / `0 [+n] UInt:8[] x` ends with KeyError / AttributeError instead of a diagnostic", m.rel, f.node.lineno, f.name)
+    res.analysed = [m.rel]
+    return res
